@@ -4,5 +4,5 @@ CONSTANTS
   MaxHist = 3
   DropTables = TRUE
   SaveAll = TRUE
-CONSTRAINT Emit
+CONSTRAINT GenBfs
 CHECK_DEADLOCK FALSE
